@@ -596,6 +596,7 @@ def r6(ctx):
         else:
             steps.append(None)
     ctx.ob("R6", "LOOP", f, "pos += 1", bool(steps) and all(k == 1 for k in steps), f"position advances by {steps} (exactly 1: every offset is tested)", ups[0][0] if ups else w)
+    _scan_start(ctx, f, cfg, fv, w, fobj, POS)
     # the header: first read of the stream after the seek, 4 bytes
     reads_all = []
     for st in statements(w):
@@ -733,6 +734,141 @@ def r6(ctx):
     from csverif.astutil import pmatch
     ok = len(mr) == 1 and pmatch("maxrange is not None and $p > maxrange", mr[0].test) == {"p": POS}
     ctx.ob("R6", "AGREE", f, "maxrange test", ok, f"limit test: {[src(m.test) for m in mr]}", undecided=not mr)
+
+
+def _scan_start(ctx, f, cfg, fv, w, fobj, POS):
+    """R6 "the scan starts at the requested offset" ("all start offsets" of the quantifier, 0 included): the value the position
+    variable has when the loop is entered, evaluated path-wise on the CFG specialised for two named cases of the start
+    parameter - S "an offset is given (not None; its truthiness is NOT assumed: 0 is an offset)" and N "None: scan from the
+    current position".  Case S: every definition reaching the loop is the parameter itself, the result of the absolute seek to
+    it, or `stream.tell()` with every path to that statement passing an absolute seek to the parameter; case N: it is
+    `stream.tell()` with no seek / read of the stream before it.  A choice made by the *truthiness* of the parameter
+    (`start or stream.tell()`, `if start:`) is neither in case S - located and wrong.  Devices 2 + 3 (policy)."""
+    from csverif.cfg import ENTRY as _ENTRY
+    from csverif.q import specialise, tv_eval
+
+    wn = cfg.node(w)
+    inside = {id(x) for x in ast.walk(w)}
+    pre = [st for st in statements(f.node) if id(st) not in inside and cfg.has(st) and cfg.reaches(cfg.node(st), wn)]
+    others = [p for p in params(f.node) if p != fobj]
+    cands = [p for p in others if any(_mentions(st, p) for st in pre)]
+    text = "the scan starts at the requested offset"
+    if len(cands) != 1:
+        ctx.undecided("R6", "CURSOR", f, text, f"parameters used before the scan loop: {cands} (exactly one start parameter expected)")
+        return
+    START = cands[0]
+
+    def stream_call(e, attrs):
+        return isinstance(e, ast.Call) and isinstance(e.func, ast.Attribute) and e.func.attr in attrs and dotted(e.func.value) == fobj
+
+    def abs_seek_to_start(c):
+        if not stream_call(c, ("seek",)) or not c.args or dotted(c.args[0]) != START:
+            return False
+        wh = c.args[1] if len(c.args) > 1 else kwarg(c, "whence")
+        return wh is None or _c(wh) == 0 or dotted(wh) in ("io.SEEK_SET", "os.SEEK_SET", "SEEK_SET")
+
+    def touches(st):
+        hdr = [st.test] if isinstance(st, (ast.If, ast.While)) else [st] if not isinstance(st, (ast.For, ast.Try, ast.With)) else []
+        return [c for h in hdr for c in ast.walk(h) if stream_call(c, ("seek", "read", "readinto", "readline", "truncate"))]
+
+    def defs_on(sc, name, use):
+        """(stmt, value) definitions of `name` reaching node `use` on the specialised CFG; (None, None) for the parameter"""
+        nodes = []
+        for st, v in assignments_to(f.node, name):
+            s2 = st if isinstance(st, ast.stmt) else fv.stmt_of(st)
+            if s2 is not None and sc.has(s2) and id(s2) not in inside:
+                nodes.append((sc.node(s2), s2, v))
+        alln = [n for n, _s, _v in nodes]
+        out = []
+        for n, s2, v in nodes:
+            if n != use and sc.reaches(_ENTRY, n) and sc.reaches(n, use, avoiding=[x for x in alln if x != n]):
+                out.append((s2, v))
+        if name in params(f.node) and sc.reaches(_ENTRY, use, avoiding=alln):
+            out.append((None, None))
+        return out
+
+    verdicts = []
+    for case, assume in (("S", {f"{START} is None": False}), ("N", {f"{START} is None": True, START: False})):
+        sc = specialise(cfg, assume)
+        label = "an offset is given" if case == "S" else "no offset (None)"
+
+        def value_of(e, at, depth=0):
+            """-> list of (kind, node): 'start' | 'tell' | 'seekret' | 'truthiness' | 'other'"""
+            if depth > 6:
+                return [("other", e)]
+            if isinstance(e, ast.IfExp):
+                t = tv_eval(e.test, assume)
+                if t is None:
+                    if dotted(e.test) == START or (isinstance(e.test, ast.UnaryOp) and dotted(e.test.operand) == START):
+                        return [("truthiness", e)]
+                    return value_of(e.body, at, depth + 1) + value_of(e.orelse, at, depth + 1)
+                return value_of(e.body if t else e.orelse, at, depth + 1)
+            if isinstance(e, ast.BoolOp) and isinstance(e.op, ast.Or) and len(e.values) == 2 and dotted(e.values[0]) == START:
+                t = tv_eval(e.values[0], assume)
+                if t is None:
+                    return [("truthiness", e)]
+                return value_of(e.values[0] if t else e.values[1], at, depth + 1)
+            if isinstance(e, ast.Name):
+                ds = defs_on(sc, e.id, sc.node(at))
+                out = []
+                for s2, v in ds:
+                    if s2 is None:
+                        out.append(("start", e) if e.id == START else ("other", e))
+                    elif v is None:
+                        out.append(("other", e))
+                    else:
+                        out += value_of(v, s2, depth + 1)
+                return out or [("other", e)]
+            if stream_call(e, ("tell",)):
+                return [("tell", fv.stmt_of(e) or at)]
+            if abs_seek_to_start(e):
+                # the absolute seek returns the new position; the parameter is judged where the seek happens
+                return [("seekret", e)] if all(k == "start" for k, _n in value_of(e.args[0], at, depth + 1)) else [("other", e)]
+            return [("other", e)]
+
+        ds = defs_on(sc, POS, wn)
+        if not ds:
+            ctx.undecided("R6", "CURSOR", f, text, f"case {label}: no definition of the position reaches the scan loop")
+            return
+        for s2, v in ds:
+            if s2 is None or v is None:
+                verdicts.append((None, f"case {label}: position comes from {'a parameter' if s2 is None else src(s2)[:50]}"))
+                continue
+            for kind, n in value_of(v, s2):
+                if kind == "truthiness":
+                    verdicts.append((False, f"case {label}: `{src(n)[:60]}` chooses by the truthiness of `{START}` - the offset 0 is treated like no offset"))
+                elif kind == "start":
+                    verdicts.append((case == "S", f"case {label}: the position is `{START}`" + ("" if case == "S" else " = None")))
+                elif kind == "seekret":
+                    verdicts.append((True if case == "S" else False, f"case {label}: the position is the result of the absolute seek to `{START}`"))
+                elif kind == "tell":
+                    tn = sc.node(n)
+                    before = [st for st in pre if sc.has(st) and sc.node(st) != tn and sc.reaches(_ENTRY, sc.node(st)) and sc.reaches(sc.node(st), tn)]
+                    seeks_ok = [st for st in before if any(abs_seek_to_start(c) for c in touches(st))]
+                    stray = [st for st in before if touches(st) and st not in seeks_ok]
+                    rel = [st for st in stray if any(stream_call(c, ("seek",)) and c.args and dotted(c.args[0]) == START for c in touches(st))]
+                    if rel:
+                        verdicts.append((False, f"case {label}: `{src(rel[0])[:50]}` seeks to `{START}` other than from the start of the stream"))
+                    elif stray:
+                        verdicts.append((None, f"case {label}: the stream is moved by `{src(stray[0])[:50]}` before the position is taken"))
+                    elif case == "S":
+                        okp = bool(seeks_ok) and sc.all_paths_pass(_ENTRY, tn, [sc.node(st) for st in seeks_ok])
+                        # the seek target must be the parameter itself there
+                        okv = all(all(k == "start" for k, _x in value_of(c.args[0], st)) for st in seeks_ok for c in touches(st) if abs_seek_to_start(c))
+                        verdicts.append((okp and okv, f"case {label}: the position is `{fobj}.tell()` " + ("after the absolute seek to the offset on every path" if okp and okv else
+                                         "but a path reaches it without the absolute seek to the given offset")))
+                    else:
+                        verdicts.append((not seeks_ok, f"case {label}: the position is `{fobj}.tell()`" + ("" if not seeks_ok else f" after `{src(seeks_ok[0])[:40]}`")))
+                else:
+                    verdicts.append((None, f"case {label}: position value `{src(n)[:60]}` not understood"))
+    bad = [d for v, d in verdicts if v is False]
+    und = [d for v, d in verdicts if v is None]
+    if bad:
+        ctx.ob("R6", "CURSOR", f, text, False, "; ".join(bad), w)
+    elif und:
+        ctx.undecided("R6", "CURSOR", f, text, "; ".join(und))
+    else:
+        ctx.ob("R6", "CURSOR", f, text, True, "; ".join(d for _v, d in verdicts), w)
 
 
 def _last_def_is(f, name_expr, call, at) -> bool:
